@@ -480,7 +480,7 @@ pub fn run_c02(env: &Env) -> i32 {
         "exploration",
         "same generated cases as C01; candidate values are (a) single-point mutations of real responses (deleted key, null, foreign enum string, atom of another type, wrapped/unwrapped list, sibling __typename) and (b) sampled inhabitants of the emitted type itself; oracle: member(v, emitted type) implies v in Ref_local (per selection set: some runtime type, some assignment of that level's boolean variables), plus the structural check that every key passed to __SelectionSet exists in the referenced schema declaration. Non-trivial: at least one candidate lies outside Ref_local (so the implication has teeth); distinct = (schema, document).",
     );
-    rep.assume("extra object keys are never a reason for rejection (TypeScript object types are open, no emitted type can exclude them): Ref_local is read modulo keys the chosen branch does not select");
+    rep.assume("object keys the selection set cannot produce for the chosen runtime type under any variable assignment are never a reason for rejection (TypeScript object types are open, no emitted type can exclude them); a key the selection set can produce must be absent in a branch that does not select it (the emitted types say `k?: never` there)");
     rep.probe("C02-aliased-typename", probe_c02_tn);
     rep.campaign("candidates", env.cases(800, 30_000), (300, 1500), c02_case);
     rep.finish()
